@@ -739,6 +739,112 @@ impl<Front: SocketHandler + std::fmt::Debug, L: ListenerHandler + L7ListenerHand
     }
 }
 
+/// Verification hook (compiled only with `--cfg sozu_verif`): snapshot of the
+/// session at the point where `Mux::ready` hands control back to the event
+/// loop (the session is about to be parked in epoll). Read-only.
+#[cfg(sozu_verif)]
+impl<Front: SocketHandler + std::fmt::Debug, L: ListenerHandler + L7ListenerHandler> Mux<Front, L> {
+    fn verif_connection<S: SocketHandler>(token: Token, connection: &Connection<S>) -> String {
+        match connection {
+            Connection::H1(c) => format!(
+                "tok={} proto=h1 ev={} int={} stream={} parked={} tls={}",
+                token.0,
+                c.readiness.event.0,
+                c.readiness.interest.0,
+                c.stream.map(|s| s as i64).unwrap_or(-1),
+                c.parked_on_buffer_pressure as u8,
+                c.socket.socket_wants_write() as u8
+            ),
+            Connection::H2(c) => {
+                let (er_gid, er_amount) = match c.expect_read {
+                    Some((h2::H2StreamId::Other { gid, .. }, amount)) => (gid as i64, amount as i64),
+                    Some((h2::H2StreamId::Zero, amount)) => (-1, amount as i64),
+                    None => (-2, 0),
+                };
+                let ew_gid = match c.expect_write {
+                    Some(h2::H2StreamId::Other { gid, .. }) => gid as i64,
+                    Some(h2::H2StreamId::Zero) => -1,
+                    None => -2,
+                };
+                let mut gids: Vec<usize> = c.streams.values().copied().collect();
+                gids.sort_unstable();
+                format!(
+                    "tok={} proto=h2 ev={} int={} er={} era={} ew={} cwin={} wu={} zero={} tls={} gids={:?}",
+                    token.0,
+                    c.readiness.event.0,
+                    c.readiness.interest.0,
+                    er_gid,
+                    er_amount,
+                    ew_gid,
+                    c.flow_control.window,
+                    c.flow_control.pending_window_updates.len(),
+                    c.zero.storage.data().len(),
+                    c.socket.socket_wants_write() as u8,
+                    gids
+                )
+            }
+        }
+    }
+
+    fn verif_kawa(kawa: &GenericHttpStream) -> String {
+        format!(
+            "{}{}{}{}/b{}/o{}/a{}",
+            if kawa.is_initial() { "i" } else { "" },
+            if kawa.is_main_phase() { "m" } else { "" },
+            if kawa.is_terminated() { "t" } else { "" },
+            if kawa.is_error() { "e" } else { "" },
+            kawa.blocks.len(),
+            kawa.out.len(),
+            kawa.storage.available_space()
+        )
+    }
+
+    fn verif_ready_exit(&self) {
+        if !crate::verif::enabled() {
+            return;
+        }
+        let front = Self::verif_connection(self.frontend_token, &self.frontend);
+        let mut backs: Vec<String> = self
+            .router
+            .backends
+            .iter()
+            .map(|(token, connection)| Self::verif_connection(*token, connection))
+            .collect();
+        backs.sort();
+        let streams: Vec<String> = self
+            .context
+            .streams
+            .iter()
+            .enumerate()
+            .filter(|(_, stream)| stream.state.is_open())
+            .map(|(gid, stream)| {
+                let link = match stream.state {
+                    StreamState::Linked(token) => token.0 as i64,
+                    StreamState::Link => -1,
+                    _ => -2,
+                };
+                format!(
+                    "gid={} link={} win={} front={} back={}",
+                    gid,
+                    link,
+                    stream.window,
+                    Self::verif_kawa(&stream.front),
+                    Self::verif_kawa(&stream.back)
+                )
+            })
+            .collect();
+        crate::verif::emit_s(
+            "mux_ready_exit",
+            &[("front", self.frontend_token.0 as i64)],
+            &[
+                ("front", front),
+                ("backs", backs.join(";")),
+                ("streams", streams.join(";")),
+            ],
+        );
+    }
+}
+
 impl<Front: SocketHandler + std::fmt::Debug, L: ListenerHandler + L7ListenerHandler> SessionState
     for Mux<Front, L>
 {
@@ -1343,6 +1449,9 @@ impl<Front: SocketHandler + std::fmt::Debug, L: ListenerHandler + L7ListenerHand
                 );
             }
         }
+
+        #[cfg(sozu_verif)]
+        self.verif_ready_exit();
 
         SessionResult::Continue
     }
